@@ -190,17 +190,36 @@ pub fn run(rep: &mut Report) {
         agg
     });
     rep.agg.merge(a);
-    let ev = rep.agg.get("crash_points") + rep.agg.get("double_crash_points") + rep.agg.get("write_fault_runs") + rep.agg.get("read_seek_fault_runs");
+    // Whatever an interrupted run (of this or of another image) left behind is a prior content of the output: the
+    // re-run in place over EVERY prior layout of <= 4 chunks of sizes 1-3 (real planner and executor), by final bytes.
+    {
+        let mut l0 = Agg::default();
+        crate::clonechecks::c03_l0(4, 64, &mut l0);
+        let mut renamed = Agg::default();
+        renamed.counters = l0.counters.clone();
+        for (k, v) in l0.classes {
+            if k == "success-with-wrong-output" {
+                renamed.classes.insert("rerun-success-with-wrong-output".into(), v);
+            } else if k == "valid-clone-failed" || k.starts_with("panic") {
+                renamed.classes.insert(if k.starts_with("panic") { k } else { "rerun-failed".into() }, v);
+            }
+        }
+        rep.agg.merge(renamed);
+    }
+    let ev = rep.agg.get("l0_pairs") + rep.agg.get("crash_points") + rep.agg.get("double_crash_points") + rep.agg.get("write_fault_runs") + rep.agg.get("read_seek_fault_runs");
     rep.set("evaluations", json!(ev));
     rep.set("distinct_nontrivial", json!(rep.agg.distinct_count("crash_states")));
     rep.set("exhaustive", json!(true));
     rep.set("universes", lab.describe());
-    rep.set("rule", json!(format!("library leg: for every first run (plain, in place over every prior output of <= {n} letters, with every seed of <= 2 letters; sources of <= {n} words per universe, quick: + the six orders of three different words), every output write k and every tear offset t in 0..=len(write k): the run dies with t bytes of write k on the device, the clone is re-run in place on the remains and must succeed with output == source; repeated crash: the re-run dies at each of its writes (tear 0, half, full) and a third run must complete (quick: every 3rd first crash point; thorough: all); write/seek errors at every index must not end in success, short/pending answers must not fail the clone; non-trivial = distinct (device content after crash, source) states")));
+    rep.set("rule", json!(format!("library leg: for every first run (plain, in place over every prior output of <= {n} letters, with every seed of <= 2 letters; sources of <= {n} words per universe, quick: + the six orders of three different words), every output write k and every tear offset t in 0..=len(write k): the run dies with t bytes of write k on the device, the clone is re-run in place on the remains and must succeed with output == source; repeated crash: the re-run dies at each of its writes (tear 0, half, full) and a third run must complete (quick: every 3rd first crash point; thorough: all); write/seek errors at every index must not end in success, short/pending answers must not fail the clone; the in-place run over every prior layout of <= 4 chunks of sizes 1-3 (anything an interrupted run of this or another image may have left); non-trivial = distinct (device content after crash, source) states")));
     rep.assume("crash model: writes before k complete, write k torn after t bytes, nothing later; matches tokio::fs::File where at most one write is in flight (bound to the real binary by the LD_PRELOAD leg)");
     rep.assume("no fsync/power-loss model: C05 speaks of interrupted processes and bita never syncs");
 }
 
 pub fn replay(v: &Value) -> bool {
+    if v.get("level").and_then(|l| l.as_str()) == Some("L0") {
+        return crate::clonechecks::replay("C03", v);
+    }
     let (cfg, hl, comp, source, sc) = scenario_from_json(v);
     let rt = new_rt();
     let arch = build_arch(&rt, &cfg, hl, &comp, &source, 2).unwrap();
